@@ -679,5 +679,14 @@ func TestReplay(t *testing.T) {
 			}
 			return err
 		},
+		"TestC11LogAppend": func(raw json.RawMessage) error {
+			var err error
+			for attempt := 0; attempt < 3; attempt++ {
+				if err = replayLogAppend(raw); err != nil {
+					return err
+				}
+			}
+			return err
+		},
 	})
 }
